@@ -146,6 +146,7 @@ class ModuleInfo:
         self.classes = {}
         self.assigns = {}     # name -> ast expr (last module-level assignment)
         self.assign_nodes = {}
+        self.mutations = {}      # name -> module-level statements that mutate it after its assignment
         self._scan(tree.body)
 
     def _absmod(self, node: ast.ImportFrom):
@@ -184,6 +185,15 @@ class ModuleInfo:
                         self.assigns[t.id] = st.value
                         self.assign_nodes[t.id] = st
                         self.imports.pop(t.id, None)
+                        self.mutations.pop(t.id, None)
+                    elif isinstance(t, ast.Subscript) and isinstance(t.value, ast.Name) and t.value.id in self.assigns:
+                        self.mutations.setdefault(t.value.id, []).append(st)
+            elif isinstance(st, ast.AugAssign) and isinstance(st.target, ast.Name) and st.target.id in self.assigns:
+                self.mutations.setdefault(st.target.id, []).append(st)
+            elif isinstance(st, ast.Expr) and isinstance(st.value, ast.Call) and isinstance(st.value.func, ast.Attribute) \
+                    and isinstance(st.value.func.value, ast.Name) and st.value.func.value.id in self.assigns \
+                    and st.value.func.attr in ("update", "append", "extend", "setdefault", "insert", "add"):
+                self.mutations.setdefault(st.value.func.value.id, []).append(st)
             elif isinstance(st, ast.AnnAssign) and isinstance(st.target, ast.Name) and st.value is not None:
                 self.assigns[st.target.id] = st.value
                 self.assign_nodes[st.target.id] = st
